@@ -421,7 +421,7 @@ func genC10(w *out.W, tier string, mu *sync.Mutex) []job {
 		}
 	}
 	big := genC10Big(w, tier)
-	w.Rule += fmt.Sprintf(". Plus %d large-transaction crash scenarios (oracle on the engine side; the journal/revision observations are also compared with the model): a file of 150 statements, alone or after a one-statement file, tx-mode {file, all}, where every statement also writes a 40 kB row into a table that existed before and updates a pre-existing counter row through a trigger (6 MB in one transaction, beyond SQLite's page cache), killed after half / all of its statements, before its last statement, after its last revision write, before its commit and (control) after its commit; counted as reaching the class only if the killed process left a non-empty rollback journal and a database file > 1 MB, i.e. uncommitted pages had been spilled into the database file", len(big))
+	w.Rule += fmt.Sprintf(". Plus %d large-transaction crash scenarios (oracle on the engine side; the journal/revision observations are also compared with the model): a file of 150 statements, alone or after a one-statement file, tx-mode {file, all}, where every statement also writes a 40 kB row into a table that existed before and updates one of 400 pre-existing 3 kB rows (a different one per statement, so committed pages are modified, go cold and are spilled) through a trigger (6 MB in one transaction, beyond SQLite's page cache), killed after half / all of its statements, before its last statement, after its last revision write, before its commit and (control) after its commit; counted as reaching the class only if the killed process left a non-empty rollback journal and a database file > 1 MB, i.e. uncommitted pages had been spilled into the database file", len(big))
 	jobs = append(jobs, big...)
 	return jobs
 }
